@@ -69,6 +69,8 @@ impl Bitmap {
 //@proof after 1 "let mask = 1u8 << (bit % 8);"
 //@| reveal(Bitmap::bit);
 //@| lemma_bit_ops(self.data[byte_index as int], (bit % 8) as u8);
+//@| assert(forall|x: u8, y: u8| #![auto] x | y == y | x) by (bit_vector);
+//@| assert(forall|x: u8, y: u8| #![auto] x & y == y & x) by (bit_vector);
 //@end
 
 //@extract nervusdb-storage/src/pager.rs Bitmap::set_bit
@@ -78,6 +80,8 @@ impl Bitmap {
 //@proof after 1 "let mask = 1u8 << (bit % 8);"
 //@| reveal(Bitmap::bit);
 //@| lemma_bit_ops(self.data[byte_index as int], (bit % 8) as u8);
+//@| assert(forall|x: u8, y: u8| #![auto] x | y == y | x) by (bit_vector);
+//@| assert(forall|x: u8, y: u8| #![auto] x & y == y & x) by (bit_vector);
 //@proof before 1 "=}" raw
 //@| proof {
 //@|     reveal(Bitmap::bit);
